@@ -456,9 +456,10 @@ p19 = Prop(
     quick=[c19_job("c19_untrusted_before_any_trust"), c19_job("c19_trust_then_observe"), c19_job("c19_observe_twice"),
            c19_job("c19_get_base_time_scans_trusted_paths"), c19_job("c19_maybe_observe_file_time")],
     thorough=[c19_job("c19_untrusted_before_any_trust"), c19_job("c19_trust_then_observe"), c19_job("c19_observe_twice"),
-              c19_job("c19_get_base_time_scans_trusted_paths"), c19_job("c19_maybe_observe_file_time"), c19_job("c19_scan_base_time", timeout=3000)],
-    bounds_quick="histories of <= 3 module calls: {observe before any trust}; {add_trusted_path, observe}; {add_trusted_path, observe, observe}; {add_trusted_path, get_base_time(now past the threshold)}; {add_trusted_path, maybe_observe_file_time | scan_base_time}; device ids fully symbolic (trusted / untrusted / path moved to another device), change times from an 8-value domain covering older / equal / newer",
-    bounds_thorough="as quick plus {add_trusted_path, scan_base_time} (ran out of 14 GB in the quick configuration)",
+              c19_job("c19_get_base_time_scans_trusted_paths"), c19_job("c19_maybe_observe_file_time")],
+    # c19_scan_base_time ({add_trusted_path, scan_base_time}) exists in kani/vouched but runs out of memory: not in either tier
+    bounds_quick="histories of <= 3 module calls: {observe before any trust}; {add_trusted_path, observe}; {add_trusted_path, observe, observe}; {add_trusted_path, get_base_time(now past the threshold)}; {add_trusted_path, maybe_observe_file_time}; device ids fully symbolic (trusted / untrusted / path moved to another device), change times from an 8-value domain covering older / equal / newer",
+    bounds_thorough="as quick ({add_trusted_path, scan_base_time} ran out of memory in CBMC and is not claimed)",
     outside=["real file systems (every fs/clock call is a stub; the stub list is part of the claim)", "change times outside the 8-value domain (the voucher computation on fully symbolic times did not finish in 50 minutes)",
              "concurrent callers (C13/C18 cover the shared cell)", "RwLock poisoning; I/O errors from stat/open/touch"],
     assumptions=["stubs: " + "; ".join(C19_STUBS), "stat(2) contract: ctime >= 0, 0 <= nsec < 10^9"],
